@@ -63,9 +63,15 @@ func (vc *VC) smtText(o *Obligation) string {
 	b.WriteString("; ---- path facts up to the obligation\n")
 	for i := 0; i < o.Seq; i++ {
 		it := vc.items[i]
+		if it.blk != nil && o.blk != nil && vc.reach != nil && !vc.reach[it.blk][o.blk] {
+			continue // recorded on a path that cannot lead to this obligation
+		}
 		if it.obl != nil {
 			if it.obl.Canary {
 				continue
+			}
+			if strings.HasSuffix(it.obl.Kind, ".established") && it.blk != o.blk {
+				continue // subsumed by the invariant assumed at the loop head
 			}
 			fmt.Fprintf(&b, "(assert %s) ; earlier obligation %s\n", implies(it.obl.Guard, it.obl.Goal), it.obl.Name)
 		} else {
